@@ -126,7 +126,7 @@ def check_C13(lines, obs):
         nd_tok = None
         if op == "setvalues" and len(t) == 3:
             nd_tok = t[2]
-        elif op == "setitem" and len(t) == 4 and t[2] == "E" and t[3].startswith("nd:"):
+        elif op == "setitem" and len(t) == 4 and t[2] in ("E", "K:", "T:") and t[3].startswith("nd:"):
             nd_tok = t[3]
         if nd_tok is not None and t[1] in before:
             cur = before[t[1]]
@@ -167,7 +167,7 @@ def check_C13(lines, obs):
                     if k_ not in known:
                         return fail(ln, "a key naming a dimension the array does not have is refused (nothing is read or written)",
                                     "err", ob[:200])
-        if (op == "setitem" and len(t_) == 4 and t_[2] == "E" and t_[3].startswith("n:") and t_[1] in before and ob == "err"):
+        if (op == "setitem" and len(t_) == 4 and t_[2] in ("E", "K:", "T:") and t_[3].startswith("n:") and t_[1] in before and ob == "err"):
             return fail(ln, "a well-formed array (values of the shape of its dimensions) can be assigned a number as a whole",
                         "ok", f"err; {t_[1]}={before[t_[1]]}")
     return None
